@@ -6,6 +6,12 @@ use crate::p3::shape::{Ball, Capsule, Cone, Cuboid, Cylinder, Segment, Triangle}
 use crate::p3::bounding_volume::{BoundingSphere, SimdAabb};
 use crate::p3::math::SimdReal;
 use crate::p3::simba::simd::SimdValue;
+#[path = "c09b.rs"]
+pub mod c09b;
+#[path = "c09c.rs"]
+pub mod c09c;
+#[path = "c09d.rs"]
+pub mod c09d;
 
 fn aabb(a: &mut Args) -> Aabb { Aabb::new(d3::p(a), d3::p(a)) }
 fn faabb(b: &Aabb) -> String { format!("{} {}", d3::fp(&b.mins), d3::fp(&b.maxs)) }
@@ -16,6 +22,9 @@ fn fint(x: Interval<f64>) -> String { format!("{} {}", ff(x.0), ff(x.1)) }
 fn interval(a: &mut Args) -> Interval<f64> { Interval(a.f(), a.f()) }
 
 pub fn exec(func: &str, a: &mut Args) -> String {
+    if let Some(r) = c09b::exec(func, a) { return r; }
+    if let Some(r) = c09c::exec(func, a) { return r; }
+    if let Some(r) = c09d::exec(func, a) { return r; }
     match func {
         "interval_add" => { let x = interval(a); let y = interval(a); fint(x + y) }
         "interval_sub" => { let x = interval(a); let y = interval(a); fint(x - y) }
@@ -169,5 +178,8 @@ pub fn gen(r: &mut Rng, thorough: bool) -> Vec<(String, String)> {
         v.push(("aabb2_transform".into(), format!("{} {} {}", d2::hp(&(c2 - he2)), d2::hp(&(c2 + he2)), d2::hiso(&m2))));
         v.push(("cuboid_aabb2".into(), format!("{} {}", d2::hv(&he2), d2::hiso(&m2))));
     }
+    c09b::gen(r, thorough, &mut v);
+    c09c::gen(r, thorough, &mut v);
+    c09d::gen(r, thorough, &mut v);
     v
 }
